@@ -218,6 +218,92 @@ def api_level(ctx, by_cfg):
                                   {"cfg": b.cfg.id, "sequence": seq, "position": pos})
     ctx.require(nseq_total >= 40 and picks, "only %d API sequences on %d workbench builds" % (nseq_total, len(picks)))
     ctx.extra["api_sequences"] = nseq_total
+    # --- (d) whole builds that differ in which other profiles are processed --------------------
+    for b in picks[:1] if ctx.tier == "quick" else picks:
+        subset_builds(ctx, b, by_cfg[b.cfg]["A"])
+
+
+def host_text(name, lines):
+    return ("abi <abi/4.0>,\n\ninclude <tunables/global>\n\n@{exec_path} = @{bin}/%s\nprofile %s @{exec_path} {\n"
+            "  include <abstractions/base>\n\n  @{exec_path} mr,\n\n%s\n\n  /etc/%s r,\n\n  include if exists <local/%s>\n}\n"
+            % (name, name, "\n".join(lines), name, name))
+
+
+def subset_builds(ctx, b, ref):
+    """Real prebuild runs of the shipped tree plus generated hosts that name shipped profiles with stack/exec directives:
+    S1 holds hosts sorted before (aaa-) and after (zzz-) their targets, S2 only the late ones. Every file of S2 must be
+    byte-identical in S1 (the text produced for a profile depends on that profile and the profiles it names only), and
+    every shipped file identical to the build without any host."""
+    rng = ctx.rng
+    profs = [p for p in matrix.top_profiles(b.aad) if not p.endswith(".apparmor.d") and "c" <= p[0].lower() <= "x"]
+    cand = []
+    for i in range(36):
+        kind = rng.choice(["stackX", "stackX", "stack", "exec", "execT"])
+        args = rng.sample(profs, rng.randint(1, 2))
+        if kind == "stackX":
+            line = "  #aa:stack X " + " ".join(args)
+        elif kind == "stack":
+            line = "  #aa:stack " + " ".join(args)
+        elif kind == "exec":
+            line = "  #aa:exec " + " ".join(args)
+        else:
+            line = "  #aa:exec %s %s" % (rng.choice(["P", "U", "PU"]), " ".join(args))
+        cand.append((kind, args, line))
+    # keep the candidates the real directive code expands without error (an error would abort the whole build)
+    reqs = [{"do": "directive", "root": b.root, "abi": int(b.cfg.abi), "version": float(b.cfg.ver), "id": i,
+             "file": os.path.join(b.root, "apparmor.d", "verif-probe-%d" % i), "text": host_text("verif-probe-%d" % i, [c[2]]), "repeat": 1}
+            for i, c in enumerate(cand)]
+    reps = worker.run_isolating(ctx, "prebuild", reqs, lambda r, e: None, extra_env={"DISTRIBUTION": b.cfg.dist}, timeout=300)
+    good = [c for c, r in zip(cand, reps) if "ok" in r][:12]
+    if len(good) < 4:
+        ctx.inconcl("subset builds: only %d usable generated hosts" % len(good))
+        return
+    early = {"aaa-verif-%d" % i: host_text("aaa-verif-%d" % i, [c[2]]) for i, c in enumerate(good)}
+    # the late hosts name the same targets, each with another directive line of the pool
+    late = {}
+    for i, c in enumerate(good):
+        o = good[(i + 1) % len(good)]
+        late["zzz-verif-%d" % i] = host_text("zzz-verif-%d" % i, [c[2], o[2]] if c[2] != o[2] else [c[2]])
+
+    def mut(hosts):
+        def m(src):
+            d = os.path.join(src, "apparmor.d", "groups", "zz-verif")
+            os.makedirs(d, exist_ok=True)
+            for n, t in hosts.items():
+                with open(os.path.join(d, n), "w") as f:
+                    f.write(t)
+        return m
+
+    both = dict(early)
+    both.update(late)
+    s1, s2 = pmap(lambda a: matrix.run_build(ctx, b.cfg, tag=a[0], tap=False, src_mutator=mut(a[1])), [("S1", both), ("S2", late)])
+    for tag, sb in (("S1", s1), ("S2", s2)):
+        if sb.rc != 0:
+            ctx.inconcl("subset build %s of %s failed: %s" % (tag, b.cfg.id, sb.log[-200:]))
+    if s1.rc == 0 and s2.rc == 0 and ref.rc == 0:
+        m1, m2, m0 = full_manifest(s1), full_manifest(s2), full_manifest(ref)
+        hostfile = lambda k: "verif-" in k
+        for k in sorted(m2):
+            if k.startswith("("):
+                continue
+            late_host = hostfile(k)
+            ctx.case(digest(b.cfg.id, "subset", k) if late_host else None,
+                     {"cfg": b.cfg.id, "file": k, "directives": [l.strip() for l in late.get(k.split("/")[-1], "").split("\n") if "#aa:" in l]} if late_host else None)
+            if m1.get(k) != m2[k]:
+                ctx.violation("C02/depends-on-other-profiles/%s" % ("generated-host" if late_host else k),
+                              "%s: %s differs between a build that also processes %d earlier hosts naming the same profiles and one that does not" % (
+                                  b.cfg.id, k, len(early)), {"cfg": b.cfg.id, "file": k, "early": early, "late": late})
+        for k in sorted(m0):
+            if k.startswith("("):
+                continue
+            if m1.get(k) != m0[k]:
+                ctx.violation("C02/depends-on-other-profiles/%s" % k,
+                              "%s: shipped file %s differs when %d generated hosts are added to the tree" % (b.cfg.id, k, len(both)),
+                              {"cfg": b.cfg.id, "file": k, "early": early, "late": late})
+        ctx.extra["subset_builds"] = ctx.extra.get("subset_builds", 0) + 2
+        ctx.extra["subset_hosts"] = len(both)
+    for sb in (s1, s2):
+        shutil.rmtree(sb.root, ignore_errors=True)
 
 
 def summarize(x):
@@ -234,12 +320,16 @@ def generated_hosts(rng, b, n):
     out = []
     hot = rng.sample(profs, 8)        # a few targets shared by many generated directives, with different transitions
     for i in range(n):
-        kind = rng.choice(["stack", "stackX", "exec", "execU", "execU"])
+        kind = rng.choice(["stack", "stackX", "exec", "execU", "execU", "dbus"])
         k = rng.randint(1, 5)
         args = rng.sample(profs, k)
         if kind.startswith("exec") and rng.random() < 0.7:
             args = rng.sample(hot, rng.randint(1, 3))
-        if kind == "stack":
+        if kind == "dbus":
+            # every documented argument combination, in any argument order (interface= together with interface+= included)
+            from .c07 import gen_dbus
+            line = "\n".join("  #aa:dbus " + gen_dbus(rng) for _ in range(rng.randint(1, 3)))
+        elif kind == "stack":
             line = "  #aa:stack " + " ".join(args)
         elif kind == "stackX":
             line = "  #aa:stack X " + " ".join(args)
@@ -252,4 +342,19 @@ def generated_hosts(rng, b, n):
                 "  include <abstractions/base>\n\n  @{exec_path} mr,\n\n%s\n\n  /etc/%s r,\n\n  include if exists <local/%s>\n}\n"
                 % (name, name, line, name, name))
         out.append((name, text))
+    # dbus directives whose expansion iterates over several arguments (both interface keys), in both argument orders
+    from .c07 import gen_dbus
+    for i in range(4):
+        lines = []
+        for _ in range(2):
+            d = [a for a in gen_dbus(rng).split() if not a.startswith("interface")]
+            if d[0] == "common":
+                d[0] = rng.choice(["own", "talk"])
+                if d[0] == "talk" and not any(a.startswith("label=") for a in d):
+                    d.append("label=foo")
+            extra = ["interface=org.x.Iface%d" % i, "interface+=org.x.Extra%d" % i]
+            rng.shuffle(extra)
+            lines.append("  #aa:dbus " + " ".join(d + extra))
+        name = "verif-gen-dbus-%d" % i
+        out.append((name, host_text(name, lines)))
     return out
